@@ -9,6 +9,7 @@ insert-at-start-if-first-in-class); `prefix`/`capitalize` are propagated from th
 The interpreter covers the statement subset identifiers.py is written in and raises
 AnalysisError outside it. Nothing of the repository is executed."""
 import ast
+import copy
 import keyword
 import re
 from ..fn import World
@@ -889,7 +890,8 @@ def r2_avoid(run, w, ip):
     if name.startswith("pick_") or name == "_gen_ident":
       # the avoid set is upper-cased before anything uses it
       ups = {n.id for n in cfg.nodes if n.kind == "stmt" and isinstance(n.stmt, ast.Assign) and
-             text(n.stmt.targets[0]) == av and text(n.stmt.value) == "_uppercase(%s)" % av}
+             text(n.stmt.targets[0]) == av and
+             text(v.positional(copy.deepcopy(n.stmt.value))) == "_uppercase(%s)" % av}
       uses = {n.id for n in cfg.nodes if n.stmt is not None and n.id not in ups and
               any(isinstance(x, ast.Name) and x.id == av and isinstance(x.ctx, ast.Load)
                   for e in n.exprs for x in ast.walk(e))}
